@@ -224,8 +224,11 @@ func (e *Executor) RunTask(ctx context.Context, call *Call) error {
 			}
 		}
 
-		if err := e.mkdir(t); err != nil {
-			e.Logger.Errf(logger.Red, "task: cannot make directory %q: %v\n", t.Dir, err)
+		// A dry run only prints the commands and must not create anything
+		if !e.Dry {
+			if err := e.mkdir(t); err != nil {
+				e.Logger.Errf(logger.Red, "task: cannot make directory %q: %v\n", t.Dir, err)
+			}
 		}
 
 		var deferredExitCode uint8
